@@ -195,7 +195,7 @@ def _enum_from(ref, k, max_levels, prefix, out, base):
         marks = {}
         for l, c in sub:
             marks.setdefault(str(l), []).append(list(c))
-        hist = prefix + [{"kind": "explicit", "marks": marks, "container": ("set", "list", "tuple")[len(out) % 3]}]
+        hist = prefix + [{"kind": "explicit", "marks": marks, "container": ("set", "list", "tuple", "live")[len(out) % 4]}]
         spec = dict(base)
         spec["steps"] = hist
         out.append(spec)
@@ -278,7 +278,10 @@ def check_enum(spec, ctx):
                 marks[l] = keep
         if not marks:
             continue
-        arg = {l: gh._container(step["container"], cs) for l, cs in marks.items()}
+        live_info = {"containers": set()}
+        arg = {l: gh._container(step["container"], cs, hs, l, live_info) for l, cs in marks.items()}
+        if "live" in live_info["containers"]:
+            ctx.flag("marks_as_live_active_cells_set")
         ret = ctx.sut(hs.refine, arg, what="HSpace.refine")
         actual = {int(l): [tuple(int(x) for x in c) for c in cs] for l, cs in ret.items() if cs}
         for l, cs in marks.items():
